@@ -764,7 +764,10 @@ func (maybeSelf someDef[T]) ToByte() (byte, error) {
 		return 0, ErrConversionSizeOverflow
 	case int8:
 		val, err := maybeSelf.ToInt8()
-		return uint8(val), err
+		if val >= 0 {
+			return uint8(val), err
+		}
+		return 0, ErrConversionSizeOverflow
 	case int16:
 		val, err := maybeSelf.ToInt16()
 		if val >= 0 && val <= math.MaxUint8 {
@@ -845,16 +848,28 @@ func (maybeSelf someDef[T]) ToUint() (uint, error) {
 		return uint(val), err
 	case int:
 		val, err := maybeSelf.ToInt()
-		return uint(val), err
+		if val >= 0 {
+			return uint(val), err
+		}
+		return 0, ErrConversionSizeOverflow
 	case int8:
 		val, err := maybeSelf.ToInt8()
-		return uint(val), err
+		if val >= 0 {
+			return uint(val), err
+		}
+		return 0, ErrConversionSizeOverflow
 	case int16:
 		val, err := maybeSelf.ToInt16()
-		return uint(val), err
+		if val >= 0 {
+			return uint(val), err
+		}
+		return 0, ErrConversionSizeOverflow
 	case int32:
 		val, err := maybeSelf.ToInt32()
-		return uint(val), err
+		if val >= 0 {
+			return uint(val), err
+		}
+		return 0, ErrConversionSizeOverflow
 	case int64:
 		val, err := maybeSelf.ToInt64()
 		if val >= 0 && val <= math.MaxUint32 {
@@ -937,10 +952,16 @@ func (maybeSelf someDef[T]) ToUint16() (uint16, error) {
 		return 0, ErrConversionSizeOverflow
 	case int8:
 		val, err := maybeSelf.ToInt8()
-		return uint16(val), err
+		if val >= 0 {
+			return uint16(val), err
+		}
+		return 0, ErrConversionSizeOverflow
 	case int16:
 		val, err := maybeSelf.ToInt32()
-		return uint16(val), err
+		if val >= 0 {
+			return uint16(val), err
+		}
+		return 0, ErrConversionSizeOverflow
 	case int32:
 		val, err := maybeSelf.ToInt32()
 		if val >= 0 && val <= math.MaxUint16 {
@@ -1021,13 +1042,22 @@ func (maybeSelf someDef[T]) ToUint32() (uint32, error) {
 		return 0, ErrConversionSizeOverflow
 	case int8:
 		val, err := maybeSelf.ToInt8()
-		return uint32(val), err
+		if val >= 0 {
+			return uint32(val), err
+		}
+		return 0, ErrConversionSizeOverflow
 	case int16:
 		val, err := maybeSelf.ToInt16()
-		return uint32(val), err
+		if val >= 0 {
+			return uint32(val), err
+		}
+		return 0, ErrConversionSizeOverflow
 	case int32:
 		val, err := maybeSelf.ToInt32()
-		return uint32(val), err
+		if val >= 0 {
+			return uint32(val), err
+		}
+		return 0, ErrConversionSizeOverflow
 	case int64:
 		val, err := maybeSelf.ToInt64()
 		if val >= 0 && val <= math.MaxUint32 {
@@ -1087,19 +1117,34 @@ func (maybeSelf someDef[T]) ToUint64() (uint64, error) {
 		return uint64(val), err
 	case int:
 		val, err := maybeSelf.ToInt()
-		return uint64(val), err
+		if val >= 0 {
+			return uint64(val), err
+		}
+		return 0, ErrConversionSizeOverflow
 	case int8:
 		val, err := maybeSelf.ToInt8()
-		return uint64(val), err
+		if val >= 0 {
+			return uint64(val), err
+		}
+		return 0, ErrConversionSizeOverflow
 	case int16:
 		val, err := maybeSelf.ToInt16()
-		return uint64(val), err
+		if val >= 0 {
+			return uint64(val), err
+		}
+		return 0, ErrConversionSizeOverflow
 	case int32:
 		val, err := maybeSelf.ToInt32()
-		return uint64(val), err
+		if val >= 0 {
+			return uint64(val), err
+		}
+		return 0, ErrConversionSizeOverflow
 	case int64:
 		val, err := maybeSelf.ToInt64()
-		return uint64(val), err
+		if val >= 0 {
+			return uint64(val), err
+		}
+		return 0, ErrConversionSizeOverflow
 	case float32:
 		val, err := maybeSelf.ToFloat32()
 		if val >= 0 && val <= math.MaxUint64 {
@@ -1161,19 +1206,31 @@ func (maybeSelf someDef[T]) ToUintptr() (uintptr, error) {
 		return uintptr(val), err
 	case int:
 		val, err := maybeSelf.ToInt()
-		return uintptr(val), err
+		if val >= 0 {
+			return uintptr(val), err
+		}
+		return 0, ErrConversionSizeOverflow
 	case int8:
 		val, err := maybeSelf.ToInt8()
-		return uintptr(val), err
+		if val >= 0 {
+			return uintptr(val), err
+		}
+		return 0, ErrConversionSizeOverflow
 	case int16:
 		val, err := maybeSelf.ToInt16()
-		return uintptr(val), err
+		if val >= 0 {
+			return uintptr(val), err
+		}
+		return 0, ErrConversionSizeOverflow
 	case int32:
 		val, err := maybeSelf.ToInt32()
-		return uintptr(val), err
+		if val >= 0 {
+			return uintptr(val), err
+		}
+		return 0, ErrConversionSizeOverflow
 	case int64:
 		val, err := maybeSelf.ToInt64()
-		if uint64(val) <= maxUintptr {
+		if val >= 0 && uint64(val) <= maxUintptr {
 			return uintptr(val), err
 		}
 		return uintptr(0), ErrConversionSizeOverflow
